@@ -293,6 +293,7 @@ static void caseC10(uint64_t idx, vh::Rng& g)
 		RFA a0 = faObserve(A), b0 = faObserve(B);
 		{ rm::JointW K = rm::jointWord({&a, &a0}, nsym); for (auto& m : K.reach) if (K.acc(m, 0) != K.acc(m, 1)) { R->violation("C10/load/language", "dump of the loaded automaton has another language"); break; } }
 		R->phase("Union"); { RFA u = faObserve(FA::Union(A, B)); bin("union", a, b, u, true); }
+		R->phase("Union(with maps)"); { AutBase::StateToStateMap ma, mb; int mode = static_cast<int>(g.below(3)); R->count("out-parameter:union-maps"); RFA u = faObserve(mode == 0 ? FA::Union(A, B, &ma, &mb) : mode == 1 ? FA::Union(A, B, &ma, nullptr) : FA::Union(A, B, nullptr, &mb)); bin("union", a, b, u, true); }
 		R->phase("UnionDisjointStates");
 		{
 			SharedDict sd; FA X = loadFA(a, nsym, "A", sd, "p"), Y = loadFA(b, nsym, "B", sd, "r"); RFA x0 = faObserve(X), y0 = faObserve(Y);
@@ -317,6 +318,13 @@ static void caseC10(uint64_t idx, vh::Rng& g)
 		{ AutBase::ProductTranslMap pm; RFA u = faObserve(FA::Intersection(A, B, &pm)); bin("isect", a, b, u, false); }
 		R->phase("RemoveUnreachableStates"); { FA x = A; RFA u = faObserve(x.RemoveUnreachableStates()); same("unreach", a, u); }
 		R->phase("RemoveUselessStates"); { FA x = A; RFA u = faObserve(x.RemoveUselessStates()); same("useless", a, u); }
+		if (g.chance(1, 2))
+		{	// the same with the optional out-parameters supplied
+			R->count("out-parameter:fa-trimming-maps");
+			R->phase("RemoveUnreachableStates(map)"); { FA x = A; AutBase::StateToStateMap m; RFA u = faObserve(x.RemoveUnreachableStates(&m)); same("unreach", a, u); }
+			R->phase("RemoveUselessStates(map)"); { FA x = A; AutBase::StateToStateMap m; RFA u = faObserve(x.RemoveUselessStates(&m)); same("useless", a, u); }
+			R->phase("Reverse(map)"); { AutBase::StateToStateMap m; RFA u = faObserve(A.Reverse(&m)); same("reverse", rm::mirror(a), u); }
+		}
 		R->phase("GetCandidateTree");
 		{
 			RFA u = faObserve(A.GetCandidateTree()); rm::JointW K = rm::jointWord({&a, &u}, nsym); bool ne = false, nea = false, sub = true;
